@@ -225,6 +225,15 @@ func (t *translator) expr(x ast.Expr) string {
 			} else {
 				other = a
 			}
+			if strings.HasPrefix(m, "-") && x.Op == token.AND {
+				// x & -(2^k)  ==  x - x mod 2^k  (two's complement, any sign; Lean `%` on Int is emod)
+				if k, ok := maskBits(decPred(m[1:])); ok || m == "-1" {
+					if m == "-1" {
+						return other
+					}
+					return fmt.Sprintf("(%s - %s %% 2^%d)", other, other, k)
+				}
+			}
 			k, isMask := maskBits(m)
 			if !isMask {
 				return t.fail("& mask %s is not 2^k-1", m)
@@ -258,6 +267,9 @@ func (t *translator) expr(x ast.Expr) string {
 			return "(decide (" + a + " = " + b + "))"
 		case token.NEQ:
 			return "(decide (" + a + " ≠ " + b + "))"
+		case token.OR:
+			// exact only for non-negative operands (see orNonneg in the generated prelude)
+			return "(orNonneg " + a + " " + b + ")"
 		case token.LAND:
 			return "(" + a + " && " + b + ")"
 		case token.LOR:
@@ -286,6 +298,15 @@ func (t *translator) expr(x ast.Expr) string {
 		return t.fail("call %s", t.f.Src(x.Fun))
 	}
 	return t.fail("expression %T", x)
+}
+
+// decPred returns the decimal string of n-1 for a small positive decimal n ("" if not parseable).
+func decPred(n string) string {
+	v, err := strconv.ParseUint(n, 10, 64)
+	if err != nil || v == 0 {
+		return ""
+	}
+	return strconv.FormatUint(v-1, 10)
 }
 
 func lit(v string) string {
@@ -459,7 +480,7 @@ func (t *translator) block(stmts []ast.Stmt, k func() string, ind string) string
 		return tuple(rs)
 	case *ast.DeclStmt:
 		gd, ok := s.Decl.(*ast.GenDecl)
-		if !ok || gd.Tok != token.VAR {
+		if !ok || (gd.Tok != token.VAR && gd.Tok != token.CONST) {
 			return t.fail("declaration")
 		}
 		out := ""
@@ -506,7 +527,7 @@ func (t *translator) block(stmts []ast.Stmt, k func() string, ind string) string
 			default:
 				opm := map[token.Token]token.Token{token.ADD_ASSIGN: token.ADD, token.SUB_ASSIGN: token.SUB, token.MUL_ASSIGN: token.MUL,
 					token.QUO_ASSIGN: token.QUO, token.REM_ASSIGN: token.REM, token.SHL_ASSIGN: token.SHL, token.SHR_ASSIGN: token.SHR,
-					token.AND_ASSIGN: token.AND, token.AND_NOT_ASSIGN: token.AND_NOT}
+					token.AND_ASSIGN: token.AND, token.AND_NOT_ASSIGN: token.AND_NOT, token.OR_ASSIGN: token.OR}
 				op, ok := opm[s.Tok]
 				if !ok {
 					return t.fail("assignment operator %s", s.Tok)
